@@ -16,7 +16,8 @@ RULE = ("random well-formed textgrids (1-3 interval/point tiers, 0-4 entries; la
         "non-trivial = the textgrid has at least one entry")
 TRUSTED = ["oracle: field-by-field comparison in Python (harness/props/C01.py:oracle); CPython repr/float/json; UTF-8 file I/O",
            "hypothesis hnum of C01.parseShort_emit (every rendered time is a NumWord: non-empty, one line, no quote, no "
-           "surrounding whitespace) is sampled on every time of every case (oracle clause 'numword')"]
+           "surrounding whitespace) is sampled on every time of every case (oracle clause 'numword'); likewise hypothesis hnum of "
+           "C01.parseLong_emit (LongNum: the numeral matches [\\d.]+(?:[eE][-+]?\\d+)? entirely; oracle clause 'longnum')"]
 ASSUMPTIONS = ["labels and names contain no carriage return; names non-empty, single-line, trimmed",
                "intervals and gaps are at least 1e-6 long (sliver absorption is C04's subject)"]
 
@@ -24,6 +25,13 @@ def numword_ok(w):
     """hypothesis `hnum` of C01.parseShort_emit (lean/PraatModel/Props/C01Full.lean), through its sufficient condition
     NumWord.of_plain: a rendered time is a non-empty single line without quotes and without surrounding whitespace"""
     return w != "" and "\n" not in w and '"' not in w and w == w.strip()
+
+
+def longnum_ok(w):
+    """hypothesis `hnum` of C01.parseLong_emit (lean/PraatModel/Props/C01Long.lean): `LongNum`, i.e. the rendered time matches
+    the long-format reader's numeral pattern entirely"""
+    import re
+    return re.fullmatch(r"[\d.]+(?:[eE][-+]?\d+)?", w) is not None
 
 
 def times_of(g):
@@ -106,6 +114,8 @@ def oracle(c, r):
         w = my_math.numToStr(x)
         if not numword_ok(w):
             return Failure(dict(sig, clause="numword"), f"numToStr({x!r}) = {w!r} is not a NumWord")
+        if not longnum_ok(w):
+            return Failure(dict(sig, clause="longnum"), f"numToStr({x!r}) = {w!r} is not a LongNum")
     if r["save"][0] == "err":
         return Failure(dict(sig, clause="save", exc=r["save"][1]), f"save raised {r['save'][1]}")
     if r["open"][0] == "err":
